@@ -135,7 +135,13 @@ func (c *Client) RoundTrip(call *Call) *Call {
 	if len(address) > 0 {
 		return c.transport().RoundTrip(address, call)
 	}
-	return c.transport().RoundTrip(target.address, call)
+	call = c.transport().RoundTrip(target.address, call)
+	if call.Error == ErrDial {
+		// A dial failure is reported synchronously: tell the target, as the
+		// blocking call forms do, so that the detector takes it out of rotation.
+		target.Alive(ErrDial)
+	}
+	return call
 }
 
 // Call invokes the named function, waits for it to complete, and returns its error status.
@@ -195,7 +201,11 @@ func (c *Client) Go(serviceMethod string, args interface{}, reply interface{}, d
 	if len(address) > 0 {
 		return c.transport().Go(address, serviceMethod, args, reply, done)
 	}
-	return c.transport().Go(target.address, serviceMethod, args, reply, done)
+	call := c.transport().Go(target.address, serviceMethod, args, reply, done)
+	if call.Error == ErrDial {
+		target.Alive(ErrDial)
+	}
+	return call
 }
 
 // Ping is NOT ICMP ping, this is just used to test whether a connection is still alive.
